@@ -13,6 +13,14 @@ def true_conds(decisions):
             add_true(c.args[0])
             add_true(c.args[1])
             return
+        if c.op == "gamma" and c.w == 1 and len(c.args) == 3 and isinstance(c.args[2], E) and c.args[2].is_const() and c.args[2].val == 0:
+            add_true(c.args[0])            # gamma(c, x, false) is c && x
+            add_true(c.args[1])
+            return
+        if c.op == "gamma" and c.w == 1 and len(c.args) == 3 and isinstance(c.args[1], E) and c.args[1].is_const() and c.args[1].val == 0:
+            add_true(not_(c.args[0]))      # gamma(c, false, y) is !c && y
+            add_true(c.args[2])
+            return
         if c.op == "not" and c.args[0].op == "or":
             add_true(not_(c.args[0].args[0]))
             add_true(not_(c.args[0].args[1]))
